@@ -37,7 +37,8 @@ MANIFEST = {
     'technique': ('return-shape and literal-bound checks of the projection / samplers; def-use version '
                   'identity of the features that are scored, stored and fed back; operand-order and '
                   'index-variable agreement of the top-k merge; PRNG key-derivation and key-reuse lint'
-                  '; tree_map-aware operand-order and gather checks; closure keys in the PRNG lint'),
+                  '; tree_map-aware operand-order and gather checks; closure keys in the PRNG lint'
+                  '; finite-model interpretation of the eagle pool-size arithmetic; record/tuple carried loop state for the PRNG carry'),
     'level_text': (
         'Static: every candidate leaves the strategy through the [0,1] projection or a unit-interval '
         'sampler with masked categorical logits; the features that are scored are exactly the ones '
